@@ -33,13 +33,15 @@ def UF(name, *args, shape=()):
     return uf_p.bind(*args, name=name, shape=tuple(shape), nbatch=0)
 
 
+_NM = getattr(batching, "not_mapped", None)
+
+
 def _uf_batch(args, dims, *, name, shape, nbatch):
-    size = next(a.shape[d] for a, d in zip(args, dims) if d is not batching.not_mapped)
+    size = next(a.shape[d] for a, d in zip(args, dims) if d is not None and d is not _NM)
     moved = []
     for a, d in zip(args, dims):
-        if d is batching.not_mapped:
-            a = jnp.broadcast_to(a, (size,) + a.shape) if nbatch == 0 else \
-                jnp.broadcast_to(a, (size,) + a.shape)
+        if d is None or d is _NM:
+            a = jnp.broadcast_to(a, (size,) + a.shape)
             moved.append(a)
         else:
             moved.append(jnp.moveaxis(a, d, 0))
@@ -88,7 +90,7 @@ def install(interp):
         bshape = e.outvars[0].aval.shape[:nb]
         out = np.empty(tuple(bshape) + shape, dtype=object)
         for bidx in np.ndindex(*bshape):
-            out[bidx] = one([a[bidx] for a in args])
+            out[bidx] = one([np.asarray(a[bidx], dtype=object) for a in args])
         return [out]
 
     def h_probe(it, e, invals):
